@@ -1515,10 +1515,23 @@ Definition xml_required (c : case) : bool :=
 Definition xml_read (c : case) : bool :=
   let r := case_req c in xml_required c || (m_is r "PROPFIND" && is_content_xml r).
 
+(** RFC 4918 takes its grammar from RFC 2616, where quoted literals match in any case
+    (section 2.1): a Depth or Overwrite value that is an ASCII-case variant of a valid
+    literal ("Infinity", "t") is not an invalid value, whether or not the server reads it *)
+Definition lower_ascii_char (c : ascii) : ascii :=
+  let n := N_of_ascii c in if (65 <=? n) && (n <=? 90) then ascii_of_N (n + 32) else c.
+Fixpoint lower_ascii (s : string) : string :=
+  match s with EmptyString => EmptyString | String c r => String (lower_ascii_char c) (lower_ascii r) end.
+Definition depth_literal_ci (s : string) : bool := is_some (parse_depth (lower_ascii s)).
+Definition overwrite_literal_ci (s : string) : bool :=
+  String.eqb (lower_ascii s) "t" || String.eqb (lower_ascii s) "f".
+
 Definition bad_depth (r : request) : bool :=
-  negb (str_empty (r_depth r)) && match parse_depth (r_depth r) with None => true | Some _ => false end.
+  negb (str_empty (r_depth r)) &&
+  (match parse_depth (r_depth r) with None => true | Some _ => false end && negb (depth_literal_ci (r_depth r))).
 Definition bad_overwrite (r : request) : bool :=
-  negb (str_empty (r_overwrite r)) && match parse_overwrite (r_overwrite r) with None => true | Some _ => false end.
+  negb (str_empty (r_overwrite r)) &&
+  (match parse_overwrite (r_overwrite r) with None => true | Some _ => false end && negb (overwrite_literal_ci (r_overwrite r))).
 Definition bad_dest (r : request) : bool := match r_dest r with DPath _ => false | _ => true end.
 Definition copy_or_move (r : request) : bool := m_is r "COPY" || m_is r "MOVE".
 
